@@ -2,7 +2,7 @@
    Statements only.  [groups] = the value lists of the groups an 'All' row summarises. *)
 From Coq Require Import List ZArith Bool.
 From GL Require Import Lib.Arr Model.Dom Model.Scalar Model.GroupByApi Spec.Defs Proofs.ReduceSeries Proofs.ReduceMerge
-  Proofs.ApiProofs Proofs.MarginProofs.
+  Proofs.ApiProofs Proofs.MarginProofs Model.Margins Proofs.MarginLevels Proofs.GenTie Gen.TablesGen.
 Import ListNotations.
 Open Scope Z_scope.
 
@@ -47,3 +47,47 @@ Example C14_example :
   fold_left (add fops) (map (fun g => sum_list fops (nonnull fops g)) groups) (zero fops) = sum_list fops (nonnull fops (concat groups))
   /\ fold_left Z.add (map (fun g => Z.of_nat (length (nonnull fops g))) groups) 0 = 3.
 Proof. split; vm_compute; reflexivity. Qed.
+
+(* 4. the multi-level algorithm (core.add_row_margin; model Model/Margins.add_row_margin), for ANY number of key levels,
+      any subset of requested levels, any sparse set of label combinations and any aggregation that is a commutative
+      monoid (sum and count margins: addition; min / max: the extreme; a mean margin is 3. applied to the two):
+      (a) every row produced carries the aggregate of exactly the data rows its key stands for ('All' = any label),
+          an 'All' stands only in a requested level, and the key stands for at least one data row;
+      (b) the ordinary rows are unchanged;
+      (c) for every data row and every non-empty set of requested levels, the row with 'All' at those levels is there. *)
+Section MultiLevel.
+Context {V : Type} (agg : V -> V -> V) (e : V).
+Hypothesis agg_assoc : forall a b c, agg a (agg b c) = agg (agg a b) c.
+Hypothesis agg_comm : forall a b, agg a b = agg b a.
+Hypothesis agg_e : forall a, agg e a = a.
+
+Theorem C14_every_margin_row_is_the_aggregate n levels D : concrete n D -> NoDup (map fst D) ->
+  forall k v, In (k, v) (add_row_margin agg n levels D) ->
+  v = total agg e k D /\ (forall i, (i < n)%nat -> is_all k i = true -> In i levels) /\
+  (exists k0, In k0 (map fst D) /\ matches k k0 = true).
+Proof. exact (add_row_margin_sound agg e agg_assoc agg_comm agg_e n levels D). Qed.
+
+Theorem C14_ordinary_rows_unchanged n levels D : concrete n D ->
+  forall k v, In (k, v) D -> In (k, v) (add_row_margin agg n levels D).
+Proof. exact (add_row_margin_keeps_rows agg n levels D). Qed.
+
+Theorem C14_every_requested_margin_is_there n levels D S k : concrete n D ->
+  S <> [] -> NoDup S -> incl S levels -> (forall l, In l levels -> (l < n)%nat) -> In k (map fst D) ->
+  In (setAllS S k) (map fst (add_row_margin agg n levels D)).
+Proof. exact (add_row_margin_complete agg n levels D S k). Qed.
+End MultiLevel.
+Print Assumptions C14_every_margin_row_is_the_aggregate.
+Print Assumptions C14_ordinary_rows_unchanged.
+Print Assumptions C14_every_requested_margin_is_there.
+
+(* Tie B: the statements of core.add_row_margin are the ones the model reads, on this run *)
+Theorem C14_add_row_margin_is_the_source's : gen_add_row_margin = add_row_margin_source.
+Proof. exact tie_add_row_margin. Qed.
+Print Assumptions C14_add_row_margin_is_the_source's.
+
+Example C14_multi_level_example :
+  let D := [([Some 0; Some 0], 1); ([Some 0; Some 1], 2); ([Some 1; Some 1], 4)] in
+  add_row_margin Z.add 2 [1%nat] D = D ++ [([Some 0; None], 3); ([Some 1; None], 4)] /\
+  total Z.add 0 [None; Some 1] D = 6 /\ concrete 2 D.
+Proof. split; [|split]; [vm_compute; reflexivity | vm_compute; reflexivity |].
+  intros k [<-|[<-|[<-|[]]]]; reflexivity. Qed.
